@@ -9,7 +9,8 @@ import tempfile
 from . import common as C
 
 MODEL = ["model/Composite.v", "model/CompositeMon.v", "lib/Errs.v", "lib/LTS.v"]
-PROOFS_COMMON = ["proofs/CompositeBase.v"] + MODEL
+PROOFS_COMMON = ["proofs/CompositeBase.v", "proofs/CompositeC10.v", "proofs/CompositeC11.v", "proofs/CompositeLocks.v",
+                 "proofs/CompositeLive.v"] + MODEL
 TRUSTED = [
     "hand-written model of runnables/composite (coq/model/Composite.v), tied to the code only by trace acceptance "
     "(check B) and the differential runs on hasMembershipChanged / error classification (check A)",
